@@ -26,14 +26,33 @@ func otherSpelling(query *Query, row Map, name string) (string, bool) {
 	if query == nil {
 		return "", false
 	}
+	if rest, ok := ownColumn(query, row, name); ok {
+		return rest, true
+	}
 	switch {
-	case len(query.table) > 0 && strings.HasPrefix(name, query.table+"."):
-		if _, shadows := row[strings.SplitN(query.table, ".", 2)[0]]; !shadows {
-			return name[len(query.table)+1:], true
-		}
 	case len(query.alias) > 0:
 		if _, ok := row[query.alias].(Map); ok && len(row) <= 2 {
 			return qualifiedName(query.alias, name), true
+		}
+	}
+	return "", false
+}
+
+// ownColumn is the rest of a column name that begins with the name of the
+// query's own un-aliased table: its whole path (root.users.id FROM
+// root.users) or, like SQL's db.table, the last part of it (users.id FROM
+// root.users). row is a row of that table; a row that has a member of that
+// name itself is read at first hand
+func ownColumn(query *Query, row Map, name string) (string, bool) {
+	if len(query.table) == 0 {
+		return "", false
+	}
+	for _, prefix := range []string{query.table, query.table[strings.LastIndex(query.table, ".")+1:]} {
+		if !strings.HasPrefix(name, prefix+".") {
+			continue
+		}
+		if _, shadows := row[strings.SplitN(prefix, ".", 2)[0]]; !shadows {
+			return name[len(prefix)+1:], true
 		}
 	}
 	return "", false
@@ -150,11 +169,10 @@ func ValueOf(query *Query, current Map, any any) (any, error) {
 			// a column named with the table's own name (users.id FROM users),
 			// or without the table's alias (id FROM users u)
 			if rs == nil && query != nil {
+				if rest, ok := ownColumn(query, current, string(value)); ok {
+					return ExecReader(current, rest)
+				}
 				switch name := string(value); {
-				case len(query.table) > 0 && strings.HasPrefix(name, query.table+"."):
-					if _, shadows := current[strings.SplitN(query.table, ".", 2)[0]]; !shadows {
-						return ExecReader(current, name[len(query.table)+1:])
-					}
 				case len(query.alias) > 0:
 					// (inside EXISTS the row also carries the outer row's columns)
 					if _, ok := current[query.alias].(Map); ok {
